@@ -77,7 +77,7 @@ def dict_sub(a, b):
             if k in tmp:
                 tmp[k] = dict_sub(tmp[k], b[k])
             else:
-                tmp[k] = dict({},b[k])
+                tmp[k] = dict_sub({}, b[k])
             if tmp[k] == dict():
                 del tmp[k]
             continue
